@@ -99,7 +99,7 @@ def phys(M, mag_s, unit):
 
 def shards(tier, seed):
     out = [("alphabet", "Fraction"), ("alphabet", "float"), ("alphabet", "Fraction", "after-named-system-queries"), ("alphabet", "Fraction", "default_system=cgs"), ("alphabet", "Fraction", "default_system=imperial"),
-           ("alphabet", "Fraction", "after-default-system-round-trip"), ("decimal-magnitudes",), ("numbers", "Fraction"), ("numbers", "float"), ("units", "Fraction"), ("units", "float"), ("modes",), ("constructor-paths",), ("log-zero",), ("siblings", "Fraction", "fresh"), ("siblings", "float", "fresh"), ("siblings", "Fraction", "after-all-pairs")] + [("object-histories", i) for i in range(len(OBJ_STARTS))]
+           ("alphabet", "Fraction", "after-default-system-round-trip"), ("decimal-magnitudes",), ("numbers", "Fraction"), ("numbers", "float"), ("units", "Fraction"), ("units", "float"), ("modes",), ("constructor-paths",), ("log-zero",), ("after-redefinition",), ("siblings", "Fraction", "fresh"), ("siblings", "float", "fresh"), ("siblings", "Fraction", "after-all-pairs")] + [("object-histories", i) for i in range(len(OBJ_STARTS))]
     if tier == "thorough":
         for b in range(12):
             out.append(("allunits", b, 12))
@@ -470,6 +470,49 @@ def run_log_zero(acc):
     acc.sample({"clause": "log-zero", "a": [0, "dBm"], "b": [0, "watt"], "expected": "not equal: 0 dBm is 1 mW"})
 
 
+REDEF_ALPHA = [("1", "hand"), ("4", "inch"), ("12", "centimeter"), ("1", "foot"), ("12", "inch"), ("36", "centimeter"), ("1", "thou"), ("1/1000", "inch"), ("3/1000", "centimeter"),
+               ("1", "yard"), ("3", "foot"), ("108", "centimeter"), ("6", "pica"), ("0", "hand"), ("0", "centimeter"), ("1", "mile"), ("5280", "foot")]
+
+
+def run_after_redefinition(acc):
+    """equality follows the definitions in force: a registry in which every pair was compared and hashed BEFORE a unit was
+    defined again (inch = 3 cm; hand, foot, thou, pica, yard, mile are built on it) answers every comparison afterwards
+    exactly like a registry that was given the same redefinition without having been used, and == stays transitive"""
+    import warnings
+    used, unused = regs.default("Fraction", fresh=True), regs.default("Fraction", fresh=True)
+
+    def mk(reg):
+        return [reg.Quantity(Fraction(m), u) for m, u in REDEF_ALPHA]
+
+    qa = mk(used)
+    for a, b in itertools.product(qa, repeat=2):
+        call(lambda: (a == b, a < b, hash(a)))
+    with warnings.catch_warnings():
+        warnings.simplefilter("ignore")
+        for reg in (used, unused):
+            reg.define("inch = 3 * centimeter = in")
+    qa, qb = mk(used), mk(unused)
+    n = len(qa)
+    eqm = [[None] * n for _ in range(n)]
+    for i, j in itertools.product(range(n), repeat=2):
+        acc.ev(3)
+        acc.nt(("after-redefinition", i, j))
+        case = {"a": list(REDEF_ALPHA[i]), "b": list(REDEF_ALPHA[j]), "redefined": "inch = 3 * centimeter"}
+        for opn, f in (("==", lambda x, y: x == y), ("<", lambda x, y: x < y), ("hash-equal", lambda x, y: hash(x) == hash(y))):
+            o1, o2 = call(lambda: f(qa[i], qa[j])), call(lambda: f(qb[i], qb[j]))
+            if opn == "==":
+                eqm[i][j] = o1[1] if o1[0] == "ok" else None
+            if o1 != o2:
+                acc.violation(["quantity-pair", "==" if opn == "==" else ("ordering" if opn == "<" else "hash"), "answer-after-a-redefinition-depends-on-what-was-compared-before-it", ""], dict(case, op=opn), o2, o1)
+    for i, j, k in itertools.product(range(n), repeat=3):
+        if eqm[i][j] and eqm[j][k] and not eqm[i][k]:
+            acc.ev()
+            acc.violation(["quantity-law", "==", "not-transitive", "after-redefinition"], {"a": list(REDEF_ALPHA[i]), "b": list(REDEF_ALPHA[j]), "c": list(REDEF_ALPHA[k]), "redefined": "inch = 3 * centimeter"}, True, eqm[i][k])
+            break
+    acc.outcome("after-redefinition")
+    acc.sample({"clause": "after-redefinition", "a": ["1", "hand"], "b": ["12", "centimeter"], "redefined": "inch = 3 * centimeter"})
+
+
 def run_numbers(acc, nt):
     """comparison with a bare number is defined only for dimensionless quantities and for zero"""
     M = model()
@@ -652,6 +695,8 @@ def run_shard(acc, shard, tier, seed):
         run_constructor_paths(acc)
     elif k == "log-zero":
         run_log_zero(acc)
+    elif k == "after-redefinition":
+        run_after_redefinition(acc)
     elif k == "siblings":
         run_alphabet(acc, shard[1], shard[2], ALPHABET=SIBLINGS)
     elif k == "object-histories":
@@ -670,6 +715,8 @@ def replay(rec):
         run_object_histories(acc, [i for i, st in enumerate(OBJ_STARTS) if [st[1], st[2]] == case["start"]][0])
     elif "built-by" in case:
         run_constructor_paths(acc)
+    elif "redefined" in case:
+        run_after_redefinition(acc)
     elif site[-1] in ("log", "log-vs-log", "log-vs-mult") or (len(site) > 3 and str(site[3]).startswith("log-vs-")) or (site[0] in ("number", "bool") and "nt" not in case and "mode" not in case):
         run_log_zero(acc)
     elif site[-1] == "Decimal-magnitudes-in-the-float-registry":
